@@ -85,6 +85,10 @@ def run_shard(shard, ctx, tier):
                 if n == 2 and lst[0] % 5 == 1:
                     for sk in range(3):                                                # integer-pixel coordinates held in int32 arrays
                         guarded_check(mod, {'boxes': lst, 'skew': sk, 'ints': 1}, ctx)
+                if n == 2 and lst[0] % 5 == 2:
+                    for sk in range(3):            # line ids that are only unique within their region ('l0', 'l1', ...) or absent (ALTO import)
+                        for lid in (1, 2):
+                            guarded_check(mod, {'boxes': lst, 'skew': sk, 'lineids': lid}, ctx)
                 if n == 2:
                     for sk in (1, 2):
                         guarded_check(mod, {'boxes': lst, 'skew': sk}, ctx)
@@ -126,7 +130,7 @@ def many_boxes(layout):
 MANY_LAYOUTS = ['two-columns-of-seven', 'grid-4x4-shuffled', 'staircase-overlapping', 'one-column-bottom-up']
 
 
-def build_page(polygons, skew_deg, lv=0, ints=False):
+def build_page(polygons, skew_deg, lv=0, ints=False, lineids=0):
     from pero_ocr.core.layout import PageLayout, RegionLayout, TextLine
     page = PageLayout(id='p', page_size=(100, 1000))
     for k, poly in enumerate(polygons):
@@ -140,6 +144,10 @@ def build_page(polygons, skew_deg, lv=0, ints=False):
                                       polygon=np.asarray([[x0, y - 2], [max(x1, x0 + 1.0), y - 2 + dy], [max(x1, x0 + 1.0), y + 2 + dy], [x0, y + 2]]),
                                       heights=[2, 1], transcription=f'line {k}.{j}'))
         page.regions.append(reg)
+    if lineids:
+        for reg in page.regions:
+            for j, l in enumerate(reg.lines):
+                l.id = f'l{j}' if lineids == 1 else None
     if ints:
         for reg in page.regions:
             reg.polygon = np.round(reg.polygon).astype(np.int32)
@@ -214,7 +222,9 @@ def check_case(case, ctx):
         polygons = [POLYS[i] for i in case['polys']]
         what = f'polygons {polygons}'
     skew = SKEWS[case['skew']]
-    ctx.state((what, skew, case.get('lv', 0), case.get('gray', 0), case.get('ints', 0)))
+    ctx.state((what, skew, case.get('lv', 0), case.get('gray', 0), case.get('ints', 0), case.get('lineids', 0)))
+    if case.get('lineids'):
+        ctx.tag('line-ids-not-unique-on-the-page')
     if case.get('ints'):
         ctx.tag('integer-coordinate-arrays')
     configs = [('smart', p) for p in INTERSECT] + [('naive', d) for d in DENOMS]
@@ -223,7 +233,7 @@ def check_case(case, ctx):
     for name, param in configs:
         sub = dict(case, cfg=[name, param])
         K = f'{ID}/{name}'
-        page = build_page(polygons, skew, case.get('lv', 0), ints=bool(case.get('ints')))
+        page = build_page(polygons, skew, case.get('lv', 0), ints=bool(case.get('ints')), lineids=case.get('lineids', 0))
         before = snapshot(page)
         desc = f'{name} sorter (parameter {param}), {what}, line skew {skew} deg, lines per region {LINE_COUNTS[case.get("lv", 0)][:len(polygons)]}'
         try:
@@ -277,7 +287,7 @@ def check_case(case, ctx):
         # history: a sorter object that has sorted many other pages before orders this page like a fresh one
         if len(polygons) >= 2 and len(polygons) <= 3:
             try:
-                out2 = run_sorter(name, param, build_page(polygons, skew, case.get('lv', 0), ints=bool(case.get('ints'))), ctx,
+                out2 = run_sorter(name, param, build_page(polygons, skew, case.get('lv', 0), ints=bool(case.get('ints')), lineids=case.get('lineids', 0)), ctx,
                                   gray=bool(case.get('gray')), shared=True)
                 order2 = [r.id for r in out2.regions]
             except CaseTimeout:
@@ -308,5 +318,5 @@ def describe(tier):
         'bounds': BOUNDS[tier], 'alphabets': {'boxes': len(BOXES), 'overlapping': OVERLAPPING, 'polygons': POLYS, 'skews': SKEWS,
                                                'FakeIntersectionParameter': INTERSECT, 'ImageWidthDenominator': DENOMS},
         'assumptions': ['geometry compared within 1e-6 (the smart sorter rotates by the de-skew angle and back)', 'region ids are unique'],
-        'min_nontrivial': 100, 'required_tags': ['more-than-nine-regions', 'integer-coordinate-arrays', 'order-actually-changed', 'de-skew-rotation-applied', 'mutually-overlapping-lists'],
+        'min_nontrivial': 100, 'required_tags': ['line-ids-not-unique-on-the-page', 'more-than-nine-regions', 'integer-coordinate-arrays', 'order-actually-changed', 'de-skew-rotation-applied', 'mutually-overlapping-lists'],
     }
